@@ -1,7 +1,7 @@
 (* C11 - transpiling never runs user code, fails only cleanly (the evaluator and its call sites).
    Nothing but statements, closed by [exact], each followed by Print Assumptions. *)
 From Coq Require Import ZArith QArith List Bool.
-From RV Require Import Base.Wire Base.Text Lang.PyAst Lang.PySem Gen.SafeCasts Lang.ConstEval Proofs.ConstEvalP.
+From RV Require Import Base.Wire Base.Text Lang.PyAst Lang.PySem Gen.SafeCasts Lang.ConstEval Proofs.ConstEvalP Proofs.ConstEvalCostP.
 Import ListNotations.
 Open Scope Z_scope.
 
@@ -74,3 +74,15 @@ Theorem C11_blowup_refuted : forall n, 0 <= n ->
   exists z, eval_const [] (tower n) = CVal (VInt z) /\ bits (VInt z) = 2 ^ n + 1.
 Proof. exact blowup. Qed.
 Print Assumptions C11_blowup_refuted.
+
+(* ... while the NUMBER of primitive operations is linear: fewer than twice the number of AST nodes, for every
+   expression and environment.  The unbounded cost of transpile-time evaluation is the size of the operands only. *)
+Theorem C11_operations_linear : forall cenv e, (length (snd (eval_const_fx cenv e)) < 2 * esize e)%nat.
+Proof. exact ops_linear. Qed.
+Print Assumptions C11_operations_linear.
+
+Example C11_operations_linear_nonvacuous :
+  length (snd (eval_const_fx [] (EBin Add (EBin Add (EBin Add (EInt 1) (EInt 2)) (EInt 3)) (EInt 4)))) = 3%nat /\
+  esize (EBin Add (EBin Add (EBin Add (EInt 1) (EInt 2)) (EInt 3)) (EInt 4)) = 7%nat.
+Proof. exact ops_linear_example. Qed.
+Print Assumptions C11_operations_linear_nonvacuous.
